@@ -18,6 +18,8 @@ WITNESSES = {
     "upus-recomputed": lambda: dict(SC.fixtures())["test/resources/demon_lore_yatapi_test.chk"],
     "orphan-weapons-zeroed": lambda: SC.MapGen(random.Random(11), "editor", nloc=255, all_sections=True,
                                                orphan_weapons=True).build(),
+    "empty-optional-section-appended": lambda: SC.MapGen(random.Random(14), "editor", nloc=255, all_sections=True, ntrig=1,
+                                                         without=("SWNM", "UPRP", "UPUS")).build(),
     "swnm-empty-name-zeroed": lambda: SC.MapGen(random.Random(12), "editor", nloc=255, all_sections=True, near_texts=False,
                                                 swnm_density=0.0, swnm_empty_ref=True).build(),
 }
@@ -92,7 +94,6 @@ def run(ck: vlib.Check):
             dist["identical"] += 1
         elif form == "editor":
             keys, unexplained = findings.explain(b, out)
-            keys.discard("empty-optional-section-appended")
             if unexplained or not keys <= set(known_keys):
                 ck.violation(f"{label}: an editor-form map is not rewritten byte-identically: {unexplained[:3] or sorted(keys)}",
                              {"kind": "identity", "label": label, "input_hex": b.hex() if len(b) < 400000 else None,
